@@ -143,7 +143,9 @@ CHECKS = {
        "every program printed by the fixed-form printer (column-1 comment flags C c * ! d D, 5-column label field, continuation mark in column 6, "
        "statements from column 7) is classified fixed for all statement texts under stated well-formedness; every free-form rendering with a statement "
        "indented by 1..4 blanks, a trailing `&` or an early declaration is classified free; a DO nest of any depth sharing a terminal label is closed "
-       "completely; the direct character tests agree with the regenerated patterns on an exhaustive bounded domain; two refutation witnesses (known "
+       "completely; fixed-form continuation gathering (any marks, comment and blank lines in between) hands the statement readers the statement up to blanks, "
+       "which is the text the free-form twin yields (same statement cut at the same places, any number of pieces; models of both branches of get_code_line "
+       "validated against the implementation); the direct character tests agree with the regenerated patterns on an exhaustive bounded domain; two refutation witnesses (known "
        "findings). The model is validated against detect_fixed_format on every run; understanding (entities, nesting, diagnostics) is compared between "
        "the .f and .f90 renderings of generated programs.",
   note="Partial. Trusted: Coq kernel, vm_compute, hand model + differential, regex translator. Fixed-form statement gathering is differential only.",
